@@ -5,6 +5,7 @@ FENCE_NOTE = ("Trusts: x86-64 Linux page protection and the fault error code (wr
               "and 20-40 line C models). Accesses inside mapped memory that is no arena slot are not observed.")
 
 ENGINES = [
+    {"name": "handlers", "path": "harness/handlers.c", "serves_properties": ["C13"], "kind_free_text": "handler-registration history executor with sequential model"},
     {"name": "erase", "path": "harness/erase/", "serves_properties": ["C18"], "kind_free_text": "victim/probe client matrix over optimisation levels and LTO"},
     {"name": "ct", "path": "harness/ct.c", "serves_properties": ["C19"], "kind_free_text": "timingsafe_* result differential + memcheck taint run"},
     {"name": "tok", "path": "harness/tok.c", "serves_properties": ["C14", "C01", "C02"], "kind_free_text": "tokenizer call-sequence driver with reference tokenizer"},
@@ -56,6 +57,12 @@ META = {
                   "with dmax/slen at, above and below the string lengths, and its answer compared with a reference computed on bounded "
                   "private copies; operands must be unchanged. Exhaustive inside the stated bounds, nothing beyond them.",
              note=FENCE_NOTE),
+ "C13": dict(technique="runtime monitoring: recorded operation histories on real threads checked online against a sequential model of the registration state",
+             engine="handlers",
+             text="Which probe handler runs (identity, kind, code) after every violating call, and what each registration returns, is compared with a model (thread-local if set, "
+                  "else latest global, else default). Complete for short histories on two threads, random for long histories with thread creation, plus a concurrent phase on "
+                  "thread-local state.",
+             note="Probe handlers are installed through the public API only; trusts pthreads/TLS of the platform."),
  "C14": dict(technique="runtime monitoring: recorded call sequences checked against a reference tokenizer; continuation pointer poisoned into a guard page",
              engine="tok",
              text="Every call of a strtok_s/wcstok_s sequence is compared with a reference tokenizer (token start, length, terminator inside the buffer, only "
